@@ -879,6 +879,8 @@ func (m *serverHelloMsg) unmarshal(data []byte) bool {
 			fullExt[3] = byte(len(extData))
 			copy(fullExt[4:], extData)
 			m.unknownExtensions = append(m.unknownExtensions, fullExt)
+			// the extension body was copied verbatim, not parsed: nothing is left over
+			continue
 		}
 
 		if !extData.Empty() {
